@@ -392,6 +392,82 @@ func runC11(c *Ctx) {
 	}
 	c.Floor(r5, 2)
 
+	// The loose-object directory reports a missing object in two ways: the filesystem's not-exist error, or — with
+	// ExclusiveAccess, where a cached listing answers — plumbing.ErrObjectNotFound. A function that falls back to the
+	// alternates must do so for both. Scenario: the error of dir.Object/ObjectStat is not nil, os.IsNotExist(err) is
+	// false and errors.Is(err, ErrObjectNotFound) is true; no return of that error may then be reachable before the
+	// alternates are consulted.
+	const r6 = "local-miss-reaches-alternates"
+	if spk := p.Pkg("storage/filesystem"); spk != nil {
+		sinfo := spk.TypesInfo
+		isAlt := func(call *ast.CallExpr) bool {
+			fn := Callee(sinfo, call)
+			return fn != nil && fn.Name() == "findInAlternates"
+		}
+		isDirLookup := func(call *ast.CallExpr) bool {
+			fn := Callee(sinfo, call)
+			return fn != nil && (fn.Name() == "Object" || fn.Name() == "ObjectStat") && fn.Pkg() != nil && shortPkg(fn.Pkg().Path()) == dotgitShort
+		}
+		for _, fi := range p.FuncsIn("storage/filesystem") {
+			if fi.Decl.Body == nil || p.isTestFile(fi.Decl.Pos()) || nodeHasCall(fi.Decl.Body, true, isAlt) == nil || nodeHasCall(fi.Decl.Body, false, isDirLookup) == nil {
+				continue
+			}
+			f := p.FlowOf(fi)
+			k := 0
+			for _, loc := range f.Locs(CallNode(false, isDirLookup)) {
+				// the error variable the lookup's result is assigned to
+				var errVar types.Object
+				ast.Inspect(loc.B.Nodes[loc.Idx], func(n ast.Node) bool {
+					if as, ok := n.(*ast.AssignStmt); ok && len(as.Rhs) == 1 && len(as.Lhs) == 2 {
+						if call, ok := unparen(as.Rhs[0]).(*ast.CallExpr); ok && isDirLookup(call) {
+							errVar = objOf(sinfo, as.Lhs[1])
+						}
+					}
+					return true
+				})
+				if errVar == nil {
+					continue
+				}
+				k++
+				c.Analysed(fi)
+				as := &condAssume{info: sinfo, nilv: map[types.Object]bool{errVar: false}, call: func(call *ast.CallExpr) int {
+					fn := Callee(sinfo, call)
+					if fn == nil || fn.Pkg() == nil {
+						return -1
+					}
+					mentions := false
+					for _, a := range call.Args {
+						if objOf(sinfo, a) == errVar {
+							mentions = true
+						}
+					}
+					if !mentions {
+						return -1
+					}
+					switch {
+					case fn.Pkg().Path() == "os" && fn.Name() == "IsNotExist":
+						return 0
+					case fn.Pkg().Path() == "errors" && fn.Name() == "Is" && len(call.Args) == 2:
+						if o := objOfSel(sinfo, call.Args[1]); o != nil && o.Name() == "ErrObjectNotFound" {
+							return 1
+						}
+						if o := objOfSel(sinfo, call.Args[1]); o != nil && o.Name() == "ErrNotExist" {
+							return 0
+						}
+					}
+					return -1
+				}}
+				h := f.Search(SearchOpts{Starts: []Loc{After(loc)}, Barrier: CallNode(true, isAlt), BlockEdge: as.blockEdge(), Sink: func(nd ast.Node) bool {
+					r, ok := nd.(*ast.ReturnStmt)
+					return ok && len(r.Results) > 0 && objOf(sinfo, r.Results[len(r.Results)-1]) == errVar
+				}})
+				c.Check(h == nil, r6, fi.Name()+":"+errVar.Name()+ifStr(k > 1, "#"+itoa(k)), loc.B.Nodes[loc.Idx].Pos(), orStr(ifStr(h != nil, "when the loose-object directory answers plumbing.ErrObjectNotFound (ExclusiveAccess: the cached listing has no such object) instead of a not-exist error, `"+errVar.Name()+"` is returned before the alternates are consulted: an object that lives in an alternate is reported missing on this path and found on the others"),
+					"both kinds of local miss fall through to the alternates"))
+			}
+		}
+	}
+	c.Floor(r6, 1)
+
 	const r3 = "reader-bounded-by-size"
 	if fi := c.MustFunc(r3, "plumbing/format/packfile.(*FSObject).Reader"); fi != nil {
 		info := fi.Pkg.TypesInfo
